@@ -7,7 +7,7 @@ REG = dict(
     engine="E3-sched",
     technique="stateless deviation-bounded exhaustive exploration of thread schedules of the real nREPL interrupt/close handling, worker dequeue, flag reset and per-step flag check under a controlled scheduler, with replay",
     text="Same engine as C30. Scenarios: an endless eval interrupted after it started, an interrupt sent right behind an eval, a finite eval followed by an interrupt and a second "
-         "eval, two queued evals and an interrupt, an endless eval and `close`, two sessions with one interrupted, an endless eval and a dropped connection. EVERY schedule with "
+         "eval, an idle interrupt followed by load-file, completions and an eval, two queued evals and an interrupt, an endless eval and `close`, two sessions with one interrupted, an endless eval and a dropped connection. EVERY schedule with "
          "at most 2 (quick) / 3 (thorough) deviations is executed. Oracle on the recorded trace: if, when the handler's store of the interrupt flag ran, a worker had dequeued an "
          "eval and later executes at least one more interpreter step of it, that eval must end with status `interrupted` (and the run must become quiescent: prompt); an eval that "
          "was not yet dequeued when the store ran must not end `interrupted`; evals of other sessions are unaffected; after `close`/connection drop the running eval ends.",
@@ -52,6 +52,11 @@ SCENARIOS = {
     # two sessions, interrupt one
     "I6-two-sessions": dict(script=clone(1) + clone(2) + [ev("a1", "garden-1", LOOP), ev("b1", "garden-2", "let i = 0 while i < 3 { i += 1 } i"), after_steps(2), intr("i1", "garden-1")],
                             evals={"a1": "garden-1", "b1": "garden-2"}, endless={"a1"}),
+    # an interrupt handled while the session is idle must not cancel the next request, whatever kind it is (load-file evaluates too)
+    "I8-next-load-file": dict(script=clone(1) + [ev("e1", "garden-1", "1 + 1"), {"await": {"counter": "sent.ch0", "n": 3}}, intr("i1", "garden-1"),
+                                                 {"send": {"op": "load-file", "id": "l1", "session": "garden-1", "file": "let i = 0 while i < 2 { i += 1 } i", "file-path": "/verif_scratch/l.gdn"}},
+                                                 {"send": {"op": "completions", "id": "k1", "session": "garden-1", "prefix": "prin"}}, ev("e2", "garden-1", "2 + 2")],
+                              evals={"e1": "garden-1", "l1": "garden-1", "e2": "garden-1"}, endless=set()),
     # connection dropped while an endless eval runs
     "I7-drop": dict(script=clone(1) + [ev("e1", "garden-1", LOOP), after_steps(3), {"drop_conn": True}], evals={"e1": "garden-1"}, endless={"e1"}),
 }
